@@ -33,10 +33,12 @@ var commonAssumptions = []string{
 var All = []*Prop{
 	{
 		ID:    "C08",
-		Rules: []*core.Rule{rules.UnwindAgree, rules.UnwindTarget, rules.FinallyEnter, rules.UncatchableClose, rules.IterPop, rules.IterProto, rules.CtxFields},
+		Rules: []*core.Rule{rules.UnwindAgree, rules.UnwindTarget, rules.FinallyEnter, rules.CloseOrder, rules.UncatchableClose, rules.IterPop, rules.IterProto, rules.CtxFields},
 		Explanation: "R-UNWINDAGREE: the two compile-time walkers of the block stack (break/continue and return) emit, for every block kind, clean-up instructions with the same effect on vm.tryStack / vm.iterStack (effects derived from the exec methods): a kind unwound by one exit kind and not the other skips a finally or leaves an iterator open. " +
 			"R-UNWINDTARGET: the walk that emits the clean-up code of a break/continue leaves its loop over block.outer early only under an identity comparison of the enclosing block with the target block (seeded three times: an early exit decided by the kind of the enclosing block stops a labelled continue at the first inner for-let loop). " +
 			"R-FINALLYENTER ('exactly once'): every store that disarms tryFrame.finallyPos (= the finally block is being entered) comes with catchPos of the same frame disarmed - by a store in the same block or by a dominating test that it is already negative; otherwise an exception thrown inside the finally block is caught by the statement's own catch and the finally block runs twice (found on the pinned tree in the enterFinally instruction). " +
+			"R-CLOSEORDER ('innermost to outermost'): the loop of vm.restoreStacks that closes the records of the iterator-stack tail steps its index downward. " +
+			"R-ITERPOP also requires: an instruction that advances the top iterator with step() takes the record off vm.iterStack on the failure edge before it throws (an iterator whose next() failed is done and must not be closed). " +
 			"R-UNCATCHABLECLOSE ('interrupts and stack overflows run none of them'): iterator-closing code on exceptional paths is guarded by a classification excluding uncatchable payloads. " +
 			"R-ITERPOP ('exactly once'): an instruction that pops an iterator record removes it from vm.iterStack before any call that can throw a JS exception past it. " +
 			"R-CTXFIELDS: try/iterator/reference records pending across a yield are saved, cut, restored and re-based consistently, and a suspension with nothing to save cannot inherit the previous suspension's records.",
@@ -87,7 +89,7 @@ var All = []*Prop{
 	},
 	{
 		ID:    "C01",
-		Rules: []*core.Rule{rules.PanicPayload, rules.ASTDispatch, rules.SelfAssert, rules.NilDesc, rules.Recover, rules.Classifier, rules.ReflectSafe, rules.EscapeAgree, rules.EmitBalance, rules.PutOnStack, rules.DummyIsolate, rules.EnterSlot, rules.UnwindTarget, rules.NilProto, rules.LockScript},
+		Rules: []*core.Rule{rules.PanicPayload, rules.ASTDispatch, rules.SelfAssert, rules.NilDesc, rules.Recover, rules.Classifier, rules.ReflectSafe, rules.EscapeAgree, rules.EmitBalance, rules.PutOnStack, rules.DummyIsolate, rules.EnterSlot, rules.UnwindTarget, rules.NilProto, rules.LockScript, rules.ConstIdx},
 		Explanation: "Clauses decided: the engine's own ways of producing a non-documented panic are closed. " +
 			"R-PANICPAYLOAD classifies every panic(x) of the module (~500) by the static type of x: a type the boundary classifiers accept (derived from exceptionFromValue's case list, the uncatchableException implementers and compileAST on each run), a Value implementer, a re-panic of a recovered/classified value, a panic made unreachable by a preceding no-return call, or an internal assertion in the audited per-function table; a new string/error panic anywhere else is reported. " +
 			"R-ASTDISPATCH: every type switch over an interface of goja/ast whose default ends in an internal diagnostic covers every concrete ast type implementing the interface (go/types), up to an audited table of node types that the grammar only places in slots handled by the parent. " +
@@ -98,6 +100,8 @@ var All = []*Prop{
 			"R-ESCAPEAGREE: the lexer's measuring pass (scanEscape) and the decoder (parseStringLiteral) consume the same maximal number of digits for a legacy octal escape - the decoder panics on its own length self-check otherwise (seeded three times by independent agents). " +
 			"R-EMITBALANCE / R-PUTONSTACK / R-DUMMYISOLATE / R-ENTERSLOT (see C02): the decidable part of operand-stack balance of emitted bytecode - an unbalanced sequence shifts the callee/this slots of an enclosing call and ends in a failed Go type assertion or index panic; dead-code break patching and the uint32 underflow of enterBlock.stackSize crash the host outright. " +
 			"R-NILPROTO: every field access through a value loaded from a pointer field that script can make nil (baseObject.prototype: null prototypes; proxyObject.target/handler outside the proxy's own methods: revocation) is control-dependent on a non-nil test of the same field path of the same object. " +
+			"R-CONSTIDX: every string indexed with a constant k is control-dependent on a length test of the same string implying len > k (comparison of len(s), s != \"\", per-edge for phis, second loads of the same field path) - 50 sites, exact on today's tree; it found `\"abc\"[\"-\"]` / `typedArray[\"-\"]` crashing the host in the integer-index parsers. " +
+			"R-ASTDISPATCH also backs its exemption for *ast.PrivateIdentifier with a producer check: a parser function that returns one as a plain expression either reports a syntax error or has every caller test the result for that type. " +
 			"R-LOCKSCRIPT (see C15): no call that may run script while an engine mutex is held, and vm.captureStack is script-free - user code reached from either re-enters machinery that is mid-flight (self-deadlock under interruptLock; unbounded recursion through a throwing `name` getter).",
 		Technique:  "panic-operand typing with classifier sets derived from the code, no-return dominance, type-switch exhaustiveness over go/types, justified-assertion and nil-dereference rules with inter-procedural summaries",
 		DesignRef:  "DESIGN.md section 4, C01",
